@@ -321,7 +321,7 @@ class iindex(dict):
                 bcounts = numpy.bincount(values.flat)
                 distinct_values = bcounts.nonzero()[0].tolist()
                 counts = {i: bcounts[i].item() for i in distinct_values}
-            except (ValueError, TypeError):
+            except (ValueError, TypeError, MemoryError):
                 try:
                     distinct_values, ucounts = numpy.unique(
                         values.flat, return_counts=True
